@@ -74,16 +74,19 @@ def step_replay_case(seed, k, n_warm=12, n_steps=25):
         if k % 2 == 1:
             from nrel.hive.dispatcher.instruction_generator.charging_search_type import ChargingSearchType
             cfg = cfg._replace(dispatcher=cfg.dispatcher._replace(charging_search_type=ChargingSearchType.SHORTEST_TIME_TO_CHARGE))
-        rp = load_simulation(cfg)
-        rp = hive_cosim.crank(rp, n_warm).runner_payload
-        sim, env, step = rp.s, rp.e, rp.u.step_update
         viol = []
         def mask(s):
             return sha(canon(s))
         from nrel.hive.dispatcher.instruction.instructions import IdleInstruction
         from nrel.hive.state.simulation_state.update.step_simulation_ops import apply_instructions
-        earlier = sim
-        for j in range(n_steps):
+        # several starting points along the run (the full update brings the requests of the file in up to there); from each, a few
+        # steps with the StepSimulation object every step RETURNS
+        for n_warm_k in (2, 9, 17, 26, 38):
+          rp = load_simulation(cfg)
+          rp = hive_cosim.crank(rp, n_warm_k).runner_payload
+          sim, env, step = rp.s, rp.e, rp.u.step_update
+          earlier = sim
+          for j in range(7):
             nxt, step2 = step.update(sim, env)
             f0 = mask(nxt)
             # a BRANCH of the saved state (one vehicle told to idle: same clock, another state) stepped right after the trunk, and
@@ -112,7 +115,10 @@ def step_replay_case(seed, k, n_warm=12, n_steps=25):
                 viol.append(('saved_step_stepped_twice_differs', {'step_index': j, 'sim_time': int(sim.sim_time), 'vehicles_that_differ': diff[:5],
                                                                    'first_vs_second': [(v0.get(x), va.get(x), vb.get(x)) for x in diff[:3]]}))
                 break
+            earlier = sim
             sim, step = nxt, step2
+          if viol:
+            break
     return viol
 
 def tie_world(seed, k):
